@@ -6,7 +6,7 @@ from .fam_evloop import EvloopFam
 LOCKED = ["Lock", "defer Unlock"]
 
 PROP = Property(
-    "C14", ["HsVerif.Props.C14", "HsVerif.Props.C14Gen"], [QueueFam(), EvloopFam()],
+    "C14", ["HsVerif.Props.C14", "HsVerif.Props.C14Gen", "HsVerif.Props.C14GenCor"], [QueueFam(), EvloopFam()],
     facts=[
         # lock discipline the model's atomic steps rest on
         {"func": "core/eventloop/queue.go:queue.push", "order": LOCKED},
